@@ -7,6 +7,7 @@ import A5.Model.CellInfo
 import A5.Model.Compact
 import A5.Model.Hex
 import A5.Model.Hilbert
+import A5.Model.Authalic
 
 namespace A5.Driver
 open A5
@@ -115,6 +116,14 @@ def runOp (toks : List String) : String :=
     | some ib, some jb, some n =>
       s!"ok {Hilbert.ijToS (Float.ofBits (UInt64.ofNat ib)) (Float.ofBits (UInt64.ofNat jb)) n o}"
     | _, _, _ => "bad-op"
+  | ["auth", dir, b] =>
+    match b.toNat? with
+    | some b =>
+      let x := Float.ofBits (UInt64.ofNat b)
+      if dir == "fwd" then s!"ok {(Authalic.forward x).toBits}"
+      else if dir == "inv" then s!"ok {(Authalic.inverse x).toBits}"
+      else "bad-op"
+    | none => "bad-op"
   | ["q2kj", d, fx, fy] =>
     match d.toNat?, fx.toInt?, fy.toInt? with
     | some d, some fx, some fy =>
